@@ -1,5 +1,6 @@
 """Per-property checks: which programs are generated, on which configurations, which specification
 judges them.  Every verdict is a TLC verdict; this file only assembles campaigns."""
+import collections
 import json
 import os
 import random
@@ -139,8 +140,8 @@ def mc_layer_b(wd, tag="b", deep=False):
     out["ok"] = True
     if deep:
         # the binding of Layer B to the code: behaviours generated from the model, replayed, predicted vs observed raw image
-        out["impl_model_conformance"] = [b_conformance(wd, scale(40, 400), depth=10, n_clusters=20),
-                                         b_conformance(wd, scale(40, 400), depth=24, n_clusters=8, grow=True)]
+        out["impl_model_conformance"] = [b_conformance(wd, scale(40, 400), depth=12, n_clusters=20, handles=True),
+                                         b_conformance(wd, scale(40, 400), depth=24, n_clusters=8, grow=True, handles=True)]
         for c in out["impl_model_conformance"]:
             if c["tool_errors"]:
                 raise core.ToolError("Layer B conformance replay failed:\n" + c["tool_errors"][0])
@@ -178,7 +179,7 @@ CONSTANT N = %d
 CONSTANT SPC = 16
 CONSTANT ROOT = 16
 CONSTANT MaxOps = %d
-CONSTANT Features = {}
+CONSTANT Features = %s
 CONSTANT Legacy = {}
 CONSTANT Grow = %s
 INVARIANT Emit
@@ -187,12 +188,12 @@ CHECK_DEADLOCK FALSE
 BNAMES = {"a": "a", "A": "A", "b": "b", "L": "Long name xyz.txt"}
 
 
-def b_conformance(wd, n_beh, depth=10, corrupt=False, n_clusters=20, grow=False):
+def b_conformance(wd, n_beh, depth=10, corrupt=False, n_clusters=20, grow=False, handles=False):
     """behaviours of Layer B generated by TLC (simulation mode, realistic constants: 20 clusters, 16 slots per cluster, fixed root of 16
     slots) replayed on the real library; TraceB compares the model's predicted directory slots and table with the raw image"""
     cfgp = os.path.join(wd, "bgen.cfg")
     with open(cfgp, "w") as f:
-        f.write(BGEN_CFG % (n_clusters, depth, "TRUE" if grow else "FALSE"))
+        f.write(BGEN_CFG % (n_clusters, depth, '{"handles"}' if handles else "{}", "TRUE" if grow else "FALSE"))
     hists = {}
     for k in range(8):
         if len(hists) >= n_beh:
@@ -228,6 +229,17 @@ def b_conformance(wd, n_beh, depth=10, corrupt=False, n_clusters=20, grow=False)
             elif o["op"] == "rename":
                 dst = "/".join([BNAMES[x] for x in st["dp2"]] + [BNAMES[o["n2"]]])
                 ops.append({"op": "rename", "at": "", "src": path, "to": "", "dst": dst, "tag": tag})
+            elif o["op"] == "open":              # one live handle "H": the entry lags until flush / close (D-F20), as Layer B says
+                ops.append({"op": "open_file", "at": "", "path": path, "as": "H", "tag": tag})
+                ops.append({"op": "seek", "h": "H", "from": "end", "off": 0})
+            elif o["op"] == "hwrite":
+                n += 1
+                ops.append({"op": "write_all", "h": "H", "pat": n, "len": cs, "tag": tag})
+            elif o["op"] == "htrunc":
+                ops.append({"op": "seek", "h": "H", "from": "start", "off": 0})
+                ops.append({"op": "truncate", "h": "H", "tag": tag})
+            elif o["op"] in ("hflush", "hclose"):
+                ops.append({"op": "flush" if o["op"] == "hflush" else "close", "h": "H", "tag": tag})
             elif o["op"] in ("append", "truncate"):
                 if st["res"] == "NotFound":
                     continue          # (the model's "not a file" has no single counterpart in the API)
@@ -253,7 +265,8 @@ def b_conformance(wd, n_beh, depth=10, corrupt=False, n_clusters=20, grow=False)
     drift = [t for t in r.notes if str(t[0]).startswith("B.")]
     return {"behaviours": len(progs), "events": r.events, "compared": len([t for t in r.infos if t[0] == "compared"]), "drift": len(drift), "drift_samples": [list(t) for t in drift[:5]],
             "tool_errors": r.tool_errors[:1],
-            "results": sorted({st["res"] for b in list(hists)[:n_beh] for st in json.loads(b)})}
+            "results": sorted({st["res"] for b in list(hists)[:n_beh] for st in json.loads(b)}),
+            "calls": dict(collections.Counter(st["op"]["op"] for b in list(hists)[:n_beh] for st in json.loads(b)))}
 
 
 def units_str(u):
